@@ -22,6 +22,9 @@ let next_ident c =
 let next_file c =
   let i = next_ident c in
   let counts = next_list c (fun c -> let k = next_bytes c in let v = next_n c in (k, v)) in
+  (* does the implementation's parser read the written file as the reference reading does *)
+  if not (next_bool c) then
+    diff "count-file-parse" ~model:"the counters written" ~impl:("another reading / refused: file of " ^ String.escaped (string_of_bytes i.id_program));
   { f_ident = i; f_counts = counts }
 let next_map c = next_list c (fun c -> let k = next_bytes c in let v = next_z c in (k, v))
 let next_report c =
@@ -199,6 +202,75 @@ let handle kind c =
          end
        | o, _ -> diff (tag "outcome") ~model:"?" ~impl:o)
     done
+  | "runs" ->
+    (* the real upload.Run several times in one process; the configuration module publishes versions in between *)
+    let nruns = next_int c in
+    for run = 1 to nruns do
+      let st = next_list c (fun c -> let v = next_bytes c in let u = next_cfg c in (v, u)) in
+      let start = next_z c in
+      let week = next_bytes c in
+      let lastweek = next_bytes c in
+      let x = next_n c in
+      let d = next_list c (fun c ->
+          let name = next_bytes c in
+          let e = next_z c in
+          let f = next_file c in
+          { d_name = name; d_end = e; d_file = f }) in
+      let posted_same = next_bool c in
+      let remaining = next_int c in
+      let outcome = next c in
+      let (cfgv, u) = (match List.rev st with x :: _ -> x | [] -> failwith "empty store") in
+      let p = { rp_gate = true; rp_cfg = u; rp_cfgver = cfgv; rp_week = week; rp_lastweek = lastweek;
+                rp_x = x; rp_start = start } in
+      let (model, deleted) = run_fetching st p d in
+      let files = List.map (fun e -> e.d_file) (expired_now start d) in
+      let tag s = Printf.sprintf "Run%d-%s" run s in
+      let who = Printf.sprintf "Run %d of %d in one process (configuration %s is the newest published): " run nruns (string_of_bytes cfgv) in
+      if not posted_same then prop "posted-verbatim" (who ^ "the POSTed body differs from the report file");
+      let mremaining = List.length d - List.length deleted in
+      if remaining <> mremaining then
+        diff (tag "count-files-left") ~model:(string_of_int mremaining) ~impl:(string_of_int remaining);
+      let judge fs = List.iter (fun (cl, k) -> ignore cl; ignore k) fs; report_failures fs in
+      (match outcome, model with
+       | "none", None -> ()
+       | "none", Some _ -> diff (tag "outcome") ~model:"report" ~impl:"none"
+       | "local", Some (ml, mu) ->
+         let _shape = next_bool c in
+         let il = next_report c in
+         check_eq (tag "local-report") show_report (norm_report ml) (norm_report il);
+         (match mu with Some _ -> diff (tag "outcome") ~model:"upload report written" ~impl:"local only" | None -> ());
+         judge (local_check files il)
+       | "both", Some (ml, mu) ->
+         let shape = next_bool c in
+         let il = next_report c in
+         let iu = next_report c in
+         if not shape then prop "extra-fields" (who ^ "a report has members outside the report format");
+         check_eq (tag "local-report") show_report (norm_report ml) (norm_report il);
+         (match mu with
+          | None -> diff (tag "outcome") ~model:"local only" ~impl:"upload report written"
+          | Some mu -> check_eq (tag "upload-report") show_report (norm_report mu) (norm_report iu));
+         judge (local_check files il);
+         (* the property's oracle under the configuration fetched for THIS run *)
+         judge (report_check u files il iu)
+       | ("local" | "both") as o, None ->
+         let _shape = next_bool c in
+         let il = next_report c in
+         diff (tag "outcome") ~model:"none" ~impl:o;
+         judge (local_check files il);
+         if o = "both" then begin
+           let iu = next_report c in
+           judge (report_check u files il iu)
+         end
+       | o, _ -> diff (tag "outcome") ~model:"?" ~impl:o)
+    done
+  | "hang" ->
+    let i = next_int c in
+    prop "hang" (Printf.sprintf "case number %d of this run did not return within the watchdog's time" (i + 1))
+  | "fds" ->
+    let n0 = next_int c in
+    let n1 = next_int c in
+    if n1 > n0 + 16 then
+      prop "fd-leak" (Printf.sprintf "%d file descriptors open before the run of all cases, %d after" n0 n1)
   | k -> diff "unknown-case-kind" ~model:k ~impl:"-"
 
 let () = run_file Sys.argv.(1) handle
